@@ -19,6 +19,14 @@ def inputFlowOther : List String := []
 /-- (re)bindings of the buffer a marshal closure returns to storage it did not make itself -/
 def marshalBufOther : List String := []
 
+/-- package-level variables of the runtime package (runtime/*.go) other than error values: state that would
+    survive a call into the helpers every generated closure uses -/
+def runtimeState : List String := []
+
+/-- addresses of message memory handed to a call inside a getter, ProtoReflect, a size or a marshal closure
+    (`f(&x.field)`): the callee could keep or write through them -/
+def readPathEscapes : List String := []
+
 /-- files the extractor could not parse -/
 def errors : List String := []
 
